@@ -39,8 +39,41 @@ def sub(a, b):
     return (a[0] - b[0], a[1] - b[1], a[2] - b[2])
 
 
+def arrange_ids(rng, n, id_mode, order):
+    """n distinct ids and the order in which they are STORED.
+    id_mode: sparse | large (>= 2^31) | huge (just below 2^53) | dense (1..n) | offset (a..a+n-1)
+    order:   shuffled | sorted | reversed | ends_fixed (ends in place, interior shuffled)
+             | swap2 (two neighbours swapped) | move1 (one id moved)"""
+    if id_mode == 'dense':
+        ids = list(range(1, n + 1))
+    elif id_mode == 'offset':
+        a = rng.randrange(2, 10 ** 6)
+        ids = list(range(a, a + n))
+    elif id_mode == 'large':
+        ids = sorted(rng.sample(range(2 ** 31, 2 ** 31 + 10 ** 6), n))
+    elif id_mode == 'huge':
+        ids = sorted(rng.sample(range(2 ** 53 - 10 ** 6, 2 ** 53 - 1), n))
+    else:
+        ids = sorted(rng.sample(range(1, 50 * n + 100), n))
+    if order == 'shuffled':
+        rng.shuffle(ids)
+    elif order == 'reversed':
+        ids.reverse()
+    elif order == 'ends_fixed' and n > 3:
+        mid = ids[1:-1]
+        rng.shuffle(mid)
+        ids = [ids[0]] + mid + [ids[-1]]
+    elif order == 'swap2' and n > 1:
+        k = rng.randrange(n - 1)
+        ids[k], ids[k + 1] = ids[k + 1], ids[k]
+    elif order == 'move1' and n > 2:
+        x = ids.pop(rng.randrange(n))
+        ids.insert(rng.randrange(n), x)
+    return ids
+
+
 def gen_mesh(rng, etype, dims, spacing_max=3, jitter=True, map_name='id', id_mode='sparse',
-             shuffle=True):
+             shuffle=True, order=None, elem_order=None, holes=0.0):
     """dims = number of lattice nodes per axis.  Returns a dict with integer
     coordinates, ids in storage order, connectivity in ids."""
     nx, ny, nz = dims
@@ -63,51 +96,55 @@ def gen_mesh(rng, etype, dims, spacing_max=3, jitter=True, map_name='id', id_mod
                 q = tuple(sum(M[r][c] * p[c] for c in range(3)) for r in range(3))
                 lat[(i, j, k)] = q
     keys = list(lat)
-    if shuffle:
-        rng.shuffle(keys)
+    rng.shuffle(keys)          # which lattice point gets which storage slot
     n = len(keys)
-    if id_mode == 'dense':
-        ids = list(range(1, n + 1))
-    elif id_mode == 'large':
-        ids = rng.sample(range(2 ** 31, 2 ** 31 + 10 ** 6), n)
-    else:
-        ids = rng.sample(range(1, 50 * n + 100), n)
-    if not shuffle:
-        ids = sorted(ids)
+    if order is None:
+        order = 'shuffled' if shuffle else 'sorted'
+    ids = arrange_ids(rng, n, id_mode, order)
     nid = dict(zip(keys, ids))
     conn = []
-    for i in range(nx - 1):
-        for j in range(ny - 1):
-            for k in range(nz - 1):
-                if etype == 'hex':
-                    loc = [(i + a, j + b, k + c) for a, b, c in HEX_LOCAL]
-                    # orientation from the map (a jittered corner can have a
-                    # negative Jacobian although the cell is fine)
-                    if det3(M[0], M[1], M[2]) < 0:
-                        loc = loc[4:] + loc[:4]
-                    conn.append([nid[x] for x in loc])
-                else:
-                    for tet in KUHN:
-                        loc = [(i + a, j + b, k + c) for a, b, c in tet]
-                        p = [lat[x] for x in loc]
-                        if det3(sub(p[1], p[0]), sub(p[2], p[0]), sub(p[3], p[0])) < 0:
-                            loc[2], loc[3] = loc[3], loc[2]
-                        conn.append([nid[x] for x in loc])
-    if shuffle:
-        rng.shuffle(conn)
+    cells = [(i, j, k) for i in range(nx - 1) for j in range(ny - 1) for k in range(nz - 1)]
+    if holes and len(cells) > 2:
+        # voids / non-convex bodies / several components: drop some cells
+        keep = [c for c in cells if rng.random() >= holes]
+        cells = keep if len(keep) >= 2 else cells[:2]
+    for (i, j, k) in cells:
+        if etype == 'hex':
+            loc = [(i + a, j + b, k + c) for a, b, c in HEX_LOCAL]
+            # orientation from the map (a jittered corner can have a
+            # negative Jacobian although the cell is fine)
+            if det3(M[0], M[1], M[2]) < 0:
+                loc = loc[4:] + loc[:4]
+            conn.append([nid[x] for x in loc])
+        else:
+            for tet in KUHN:
+                loc = [(i + a, j + b, k + c) for a, b, c in tet]
+                p = [lat[x] for x in loc]
+                if det3(sub(p[1], p[0]), sub(p[2], p[0]), sub(p[3], p[0])) < 0:
+                    loc[2], loc[3] = loc[3], loc[2]
+                conn.append([nid[x] for x in loc])
+    rng.shuffle(conn)
     ne = len(conn)
-    if id_mode == 'dense':
-        eids = list(range(1, ne + 1))
-    elif id_mode == 'large':
-        eids = rng.sample(range(2 ** 31, 2 ** 31 + 10 ** 6), ne)
-    else:
-        eids = rng.sample(range(1, 50 * ne + 100), ne)
-    if not shuffle:
-        eids = sorted(eids)
-    return {'etype': etype, 'node_ids': [nid[k] for k in keys], 'xyz': [list(lat[k]) for k in keys],
+    if elem_order is None:
+        elem_order = order
+    eids = arrange_ids(rng, ne, id_mode, elem_order)
+    # nodes of dropped cells stay as unreferenced nodes only if no other cell uses them
+    used = {i for e in conn for i in e}
+    mesh = {'etype': etype, 'node_ids': [nid[k] for k in keys], 'xyz': [list(lat[k]) for k in keys],
             'elem_ids': eids, 'conn': conn,
             'descr': {'etype': etype, 'dims': list(dims), 'map': map_name, 'jitter': jitter,
-                      'ids': id_mode, 'shuffled': shuffle}}
+                      'ids': id_mode, 'order': order, 'elem_order': elem_order,
+                      'holes': bool(holes), 'spacing_max': spacing_max}}
+    if len(used) < n:
+        if holes == 0.0 or rng.random() < 0.5:
+            pass
+        keepn = [k for k, i in enumerate(mesh['node_ids']) if i in used]
+        if rng.random() < 0.6:       # usually remove the nodes of the voids
+            mesh['node_ids'] = [mesh['node_ids'][k] for k in keepn]
+            mesh['xyz'] = [mesh['xyz'][k] for k in keepn]
+        else:
+            mesh['descr']['unreferenced_nodes'] = n - len(used)
+    return mesh
 
 
 # --------------------------------------------------------------------- mirror
